@@ -30,6 +30,18 @@ Proof.
 Qed.
 Print Assumptions C04_rows_vs_get.
 
+(* GetCols / the Cols iterator: the same text at every position (columns are padded with "" up to the row before the
+   last one that has cells; positions beyond a column's length read as "") *)
+Theorem C04_cols_agree : forall sh col rw, 1 <= col -> 1 <= rw ->
+  nth (Z.to_nat (rw - 1)) (nth (Z.to_nat (col - 1)) (get_cols c_v sh) []) [] = shown (cell_at sh col rw).
+Proof. exact get_cols_agree. Qed.
+Print Assumptions C04_cols_agree.
+Theorem C04_cols_vs_rows : forall sh col rw, Inv sh -> 1 <= col -> 1 <= rw ->
+  nth (Z.to_nat (rw - 1)) (nth (Z.to_nat (col - 1)) (get_cols c_v sh) []) [] =
+  nth (Z.to_nat (col - 1)) (nth (Z.to_nat (rw - 1)) (get_rows c_v sh) []) [].
+Proof. exact get_cols_vs_rows. Qed.
+Print Assumptions C04_cols_vs_rows.
+
 Theorem C04_trailing_trim : forall (l : list (list bytes)) i, nth i (drop_trailing_empty l) [] = nth i l [].
 Proof. exact drop_trailing_nth. Qed.
 Print Assumptions C04_trailing_trim.
